@@ -693,7 +693,7 @@ def run(db: DB, rep: Report) -> None:
                           "can be scheduled before the statement that creates one of the ranks it reads" %
                           (f.name, n.value.func.id, want, it))
     if n_k8 < 5:
-        raise AnalysisError("fewer than 5 rank-dependence loops found (%d)" % n_k8)
+        rep.undecided("K8", "teaal/ir/flow_graph.py", "FlowGraph", "fewer than 5 rank-dependence loops found (%d)" % n_k8)
 
     # ---- K9 builder loops cover their whole collection ----------------------------
     rep.rule("K9", "a builder loop that adds dependence edges per element covers the whole collection", 8)
@@ -818,6 +818,44 @@ def run(db: DB, rep: Report) -> None:
     if n_k11 < 1:
         raise AnalysisError("no node built from a collection with a loop over the same collection found (K11)")
 
+    # ---- K16 a swizzle waits for every rank it permutes ---------------------------------------
+    rep.rule("K16", "a SwizzleNode built for a list of ranks gets an in-edge from the RankNode of every one of them", 4)
+    for f in fg.methods.values():
+        for st in [n for n in walk_no_nested(f.node) if isinstance(n, ast.Assign) and len(n.targets) == 1 and
+                   isinstance(n.targets[0], ast.Name) and isinstance(n.value, ast.Call) and
+                   norm(n.value.func) == "SwizzleNode" and len(n.value.args) >= 2]:
+            node_local = st.targets[0].id
+            ranks_txt = norm(st.value.args[1])
+            if isinstance(st.value.args[1], ast.Call) and norm(st.value.args[1].func) in ("list", "tuple") and \
+                    st.value.args[1].args:
+                ranks_txt = norm(st.value.args[1].args[0])
+            elif isinstance(st.value.args[1], ast.Call) and isinstance(st.value.args[1].func, ast.Attribute) and \
+                    st.value.args[1].func.attr == "copy":
+                ranks_txt = norm(st.value.args[1].func.value)
+            fed = False
+            for lp in [n for n in walk_no_nested(f.node) if isinstance(n, ast.For) and isinstance(n.target, ast.Name)]:
+                it_txt = norm(lp.iter)
+                same = it_txt == ranks_txt or paths.flow_text(lp.iter, lp, f.node) == \
+                    paths.flow_text(st.value.args[1], st, f.node)
+                if not same:
+                    continue
+                for x in ast.walk(lp):
+                    if isinstance(x, ast.Call) and isinstance(x.func, ast.Attribute) and x.func.attr == "add_edge" \
+                            and len(x.args) >= 2 and norm(x.args[1]) == node_local and \
+                            isinstance(x.args[0], ast.Call) and norm(x.args[0].func) == "RankNode" and \
+                            any(isinstance(a, ast.Name) and a.id == lp.target.id for a in x.args[0].args):
+                        fed = True
+            others = sorted({norm(x.args[0])[:40] for x in walk_no_nested(f.node) if isinstance(x, ast.Call) and
+                             isinstance(x.func, ast.Attribute) and x.func.attr == "add_edge" and len(x.args) >= 2
+                             and norm(x.args[1]) == node_local})
+            rep.check("K16", fed, db.loc(st), f.short, "swizzle-ranks:%s(%s)" % (node_local, ranks_txt[:30]),
+                      "%s waits for RankNode(_, r) of every r in %s" % (node_local, ranks_txt[:40]),
+                      "%s = %s permutes the ranks %s, but no loop over them adds RankNode -> %s edges (its "
+                      "in-edges come from %s): the swizzle can be ordered before the partitioning that "
+                      "creates those ranks, and the emitted swizzleRanks names ranks the tensor does not "
+                      "have yet" % (node_local, norm(st.value)[:60], ranks_txt[:40], node_local, others or "nothing"),
+                      decided=fed or bool(others) or True)
+
     # ---- K14 the metrics header of a loop waits for the fibers it traces ---------------------
     # (Collector.make_loop_header emits <fiber>.trace("eager_..._read") for the eagerly buffered
     # tensors iterated at that rank)
@@ -837,6 +875,47 @@ def run(db: DB, rep: Report) -> None:
               "partitioning) the header is sorted before the statement that binds it")
 
     # ---- K13 every input tensor gets its root fiber -------------------------------------------
+    # ---- K15: every pending flattening is considered once its source ranks exist -----------
+    rep.rule("K15", "the search for a flattening that has become possible ranges over every pending entry", 1)
+    cdp = fg.methods.get("__connect_dyn_part")
+    n_k15 = 0
+    if cdp is not None:
+        for g_ in walk_no_nested(cdp.node):
+            if not (isinstance(g_, ast.GeneratorExp) and isinstance(g_.elt, ast.Compare) and
+                    isinstance(g_.elt.ops[0], ast.In) and "get_ranks" in norm(g_.elt.comparators[0])):
+                continue
+            it_ = paths.resolve_flow(g_.generators[0].iter, g_, cdp.node, depth=2)
+            if not isinstance(it_, ast.Subscript):
+                # for entry in pending: ... all(r in ranks for r in entry)
+                src = g_.generators[0].iter
+                whole = isinstance(src, ast.Name) and any(
+                    isinstance(p_, (ast.For, ast.comprehension)) and
+                    src.id in {x.id for x in ast.walk(p_.target) if isinstance(x, ast.Name)}
+                    for p_ in list(paths.parents(g_, cdp.node)))
+                n_k15 += 1
+                rep.check("K15", whole, db.loc(g_), cdp.short, "pending-scan", "every pending entry is tested",
+                          "the readiness test of a pending flattening is applied to %s" % norm(src)[:50],
+                          decided=whole)
+                continue
+            n_k15 += 1
+            ix = it_.slice
+            moving = isinstance(ix, ast.Name) and any(
+                isinstance(x, ast.AugAssign) and isinstance(x.target, ast.Name) and x.target.id == ix.id
+                for x in walk_no_nested(cdp.node)) or (isinstance(ix, ast.Name) and any(
+                    isinstance(p_, ast.For) and ix.id in {x.id for x in ast.walk(p_.target) if isinstance(x, ast.Name)}
+                    for p_ in paths.parents(g_, cdp.node)))
+            fixed = isinstance(ix, ast.Constant) or (isinstance(ix, ast.UnaryOp) and isinstance(ix.operand, ast.Constant))
+            rep.check("K15", moving, db.loc(g_), cdp.short, "pending-scan",
+                      "the readiness test moves through the pending flattenings (index %s)" % norm(ix),
+                      "FlowGraph.__connect_dyn_part tests only entry %s of the pending flattenings: a flattening "
+                      "whose source ranks exist already but that was recorded after one still waiting is never "
+                      "applied here, so the fibers of the flattened rank are built from ranks that were never "
+                      "flattened and the partitioning they depend on is no longer an ancestor of the loop" % norm(ix),
+                      decided=moving or fixed)
+    if n_k15 < 1:
+        rep.undecided("K15", db.loc(fg.node) if hasattr(fg, "node") else "teaal/ir/flow_graph.py", "FlowGraph.__connect_dyn_part",
+                      "the readiness test over the pending flattenings was not found")
+
     rep.rule("K13", "the per-tensor loop of FlowGraph.__build gives every input tensor a GetRootNode", 1)
     bld = fg.methods.get("__build")
     if bld is None:
@@ -1367,6 +1446,14 @@ def mutants(db: DB):
     fnodes = "teaal/ir/flow_nodes.py"
     hf = "teaal/trans/hifiber.py"
     return [
+        M("only the head of the pending flattenings is tested (C10-u2)", fg,
+          "        i = 0\n        while i < len(flatten_info[root]):\n            if not all(flat_rank in tensor.get_ranks()\n                       for flat_rank in flatten_info[root][i]):\n                i += 1\n                continue\n\n            flatten = flatten_info[root].pop(i)",
+          "        i = 0\n        while flatten_info[root]:\n            if not all(flat_rank in tensor.get_ranks()\n                       for flat_rank in flatten_info[root][0]):\n                break\n\n            flatten = flatten_info[root].pop(0)",
+          "K15"),
+        M("metrics swizzle waits for the tensor, not for its ranks (C10-u1)", fg,
+          "                    for rank in init_ranks:\n                        self.graph.add_edge(\n                            RankNode(root, rank), metrics_swizzle_node)",
+          "                    self.graph.add_edge(\n                        TensorNode(root), metrics_swizzle_node)",
+          ("K16", "K5", "K8")),
         M("eager input: fast path for directly iterated tensors adds no edge", fg,
           "            tranks = [Symbol(trank.lower())\n                      for trank in tensor.get_init_ranks()]\n            trans = self.program",
           "            if part.get_root_name(rank) in tensor.get_init_ranks():\n                continue\n            tranks = [Symbol(trank.lower())\n                      for trank in tensor.get_init_ranks()]\n            trans = self.program",
